@@ -37,17 +37,17 @@ from ..realise import puritydocs as PD  # noqa: E402
 SPEC = os.path.join(SPECS, "purity", "MC_Purity.tla")
 TRACE_SPEC = os.path.join(SPECS, "purity", "PurityTrace.tla")
 ADDRESS_DEVS = ("InlineNameIsAddress", "TieBreakByAddress")
-DANGEROUS = ["EncodingNoCopy", "EncodingLazyCopy", "ColorSpaceNoCopy", "InitResourcesEarlyReturn", "UseCMapAlias", "UMapKeyCoarse", "SharedManager", "DecipherTwice",
+DANGEROUS = ["EncodingNoCopy", "EncodingLazyCopy", "ColorSpaceNoCopy", "InitResourcesEarlyReturn", "ObjStmSiblingsCached", "UseCMapAlias", "UMapKeyCoarse", "SharedManager", "DecipherTwice",
              "DescendantNoCopy", "InlineNameIsAddress", "TieBreakByAddress"]
 # the smallest pool / number of calls in which each dangerous alternative breaks Functional
-REFUTE_IN = {"EncodingNoCopy": ('{"dA", "dB"}', 2), "EncodingLazyCopy": ('{"dA", "dB"}', 2), "InitResourcesEarlyReturn": ('{"dB"}', 1), "ColorSpaceNoCopy": ('{"dA", "dC"}', 2), "UseCMapAlias": ('{"dA"}', 2),
+REFUTE_IN = {"EncodingNoCopy": ('{"dA", "dB"}', 2), "EncodingLazyCopy": ('{"dA", "dB"}', 2), "InitResourcesEarlyReturn": ('{"dB"}', 1), "ObjStmSiblingsCached": ('{"dA"}', 1), "ColorSpaceNoCopy": ('{"dA", "dC"}', 2), "UseCMapAlias": ('{"dA"}', 2),
              "UMapKeyCoarse": ('{"dA", "dB"}', 2), "SharedManager": ('{"dA", "dB"}', 2), "DecipherTwice": ('{"dC"}', 1),
              "DescendantNoCopy": ('{"dA"}', 1), "InlineNameIsAddress": ('{"dA"}', 1), "TieBreakByAddress": ('{"dB"}', 1)}
 ACTIONS = ["Open", "Extract", "Next", "Close", "UseCMap", "ADocOpen", "APageStart", "AInitResources", "AInitColorSpacesCopy", "AFontCacheHit",
-           "AFontMiss", "AGetFontSpec", "AGetObjParsed", "ADecipherAllInPlace", "ACopyDescendantSpec", "AGetEncodingShared",
+           "AFontMiss", "AObjStmParse", "AObjDirectParse", "AGetFontSpec", "AGetObjParsed", "ADecipherAllInPlace", "ACopyDescendantSpec", "AGetEncodingShared",
            "AGetEncodingCopyOnWrite", "ADifferencesAssign", "ADifferencesPop", "AParseToUnicode", "ACMapCacheFill", "ACMapCacheHit", "AUMapCacheFill",
            "AUMapCacheHit", "AResolveAllInPlace", "AFontCacheFill", "ARender", "AUseCMapCopy", "AAddCode2Cid"]
-INVARIANTS = ["CacheKeySound", "CMapCacheSound", "DecipheredOnce", "CachedObjectsAsParsed", "ClientOwnsItsTable"]
+INVARIANTS = ["CacheKeySound", "CMapCacheSound", "DecipheredOnce", "ObjCacheNewest", "CachedObjectsAsParsed", "ClientOwnsItsTable"]
 PROPERTIES = ["SharedTablesImmutable", "CachesAppendOnly"]
 KINDS = OBS.KINDS
 
